@@ -103,10 +103,46 @@ JudgeExport(e, c) ==
      \cup F("ExportExact", Set(e.res.services) = Exported(c.cfg, c.lsvcs, c.peer))
      \cup F("ExportChainsAreServices", Set(e.res.chains) \subseteq Set(e.res.services) \/ \E x \in c.cfg : x.name = Wildcard /\ c.peer \in x.peers)
 
+(* ---- end to end: the importer holds exactly what the exporter exports NOW ----------------- *)
+(* xcat / xcfg = exporter's local catalog and its STORED exported-services entry after the step, *)
+(* post = importer's complete store after the replication settled.  Imported checks are the      *)
+(* exporter's flattened "overall" checks: their status is compared raw (they carry no output).    *)
+CoreE(cat) == [nodes |-> {CoreN(r) : r \in cat.nodes}, svcs |-> {CoreS(r) : r \in cat.svcs},
+               chks |-> {[peer |-> r.peer, node |-> r.node, cid |-> r.cid, sid |-> r.sid, st |-> r.st] : r \in cat.chks},
+               rest |-> cat.rest]
+AbsXCmd(c) ==
+  CASE c.t = "xcfg" -> [t |-> "xcfg", cfg |-> AbsCfg(c.cfg)]
+    [] OTHER -> c
+PreX(i) == IF "xpre" \in DOMAIN Trace[i] THEN Core(AbsCat(Trace[i].xpre)) ELSE Core(AbsCat(Trace[i - 1].xcat))
+PreXCfg(i) == IF "xpre" \in DOMAIN Trace[i] THEN {} ELSE AbsCfg(Trace[i - 1].xcfg)
+JudgeE2E(i, e, c, preF, postF) ==
+  LET x == Core(AbsCat(e.xcat))
+      cfg == AbsCfg(e.xcfg)
+      post == CoreE(postF)
+      p == e.cmd.peer
+      k == e.cmd.consumer
+      xexp == IF c.t = "seed" THEN ApplyXSeq(PreX(i), c.xrows) ELSE ApplyX(PreX(i), c)
+      cexp == IF c.t = "xcfg" THEN c.cfg ELSE PreXCfg(i)
+  IN   F("res", e.res.ok)
+  \* the exporter's own state is what was commanded (its local catalog and the stored entry)
+  \cup F("xconf", SameCatalog(xexp, x) /\ cfg = cexp)
+  \* the property
+  \cup F("E2EOnlyExported", E2EOnlyExported(cfg, x, post, p, k))
+  \cup F("E2EMirror", E2EMirror(cfg, x, post, p, k))
+  \cup F("E2ENodes", E2ENodes(cfg, x, post, p, k))
+  \cup F("E2EChecks", E2EChecks(post, p))
+  \cup F("NIOtherPeers", c.t = "seed" \/ NIOtherPeers(preF, postF, p))
+  \cup F("NILocal", c.t = "seed" \/ NILocal(preF, postF, p))
+  \cup F("NIRest", c.t = "seed" \/ NIRestOther(preF, postF, p))
+  \cup F("NIRestGateway", c.t = "seed" \/ NIRestGateway(preF, postF, p))
+
+IsE2E(e) == "xcat" \in DOMAIN e
+
 Verdict(i) ==
   LET e == Trace[i]
       c == AbsCmd(e.cmd)
-  IN CASE c.t = "upd"    -> JudgeUpd(e, c, PreF(i), AbsCat(e.post))
+  IN CASE IsE2E(e)       -> JudgeE2E(i, e, IF c.t = "seed" THEN c @@ [xrows |-> e.cmd.xrows] ELSE AbsXCmd(c), PreF(i), AbsCat(e.post))
+       [] c.t = "upd"    -> JudgeUpd(e, c, PreF(i), AbsCat(e.post))
        [] c.t = "list"   -> JudgeList(e, c, PreF(i), AbsCat(e.post))
        [] c.t = "seed"   -> F("res", e.res.ok) \cup F("conf", SameCatalog(Apply(Core(PreF(i)), c), Core(AbsCat(e.post))))
        [] c.t = "export" -> JudgeExport(e, c)
